@@ -234,6 +234,12 @@ def note(method, params=None):
     return m
 
 
+def lsp_session_exit_only(text, uri=URI):
+    """like lsp_session, but the client leaves with `exit` WITHOUT `shutdown` (status 1): every request sent before must still be
+    answered, however the bytes are chunked"""
+    return [m for m in lsp_session(text, uri) if m.get("method") != "shutdown"]
+
+
 def lsp_session(text, uri=URI):
     """initialize, initialized, didOpen (non-ASCII text), hover on main (non-ASCII doc comment), $/verif/text,
     hover on a builtin, shutdown, exit"""
@@ -769,6 +775,15 @@ def binary_level(ctx, exe):
         frames = [lspclient.frame(m) for m in lsp_session(t)]
         data = b"".join(frames)
         sessions.append((t, data))
+        cuts, pos = [], 0
+        for f in frames[:-1]:
+            pos += len(f)
+            cuts.append(pos)
+        frame_cuts[len(sessions) - 1] = cuts
+    for t in TEXTS[:3 if ctx.thorough() else 1]:
+        frames = [lspclient.frame(m) for m in lsp_session_exit_only(t)]
+        data = b"".join(frames)
+        sessions.append(("exit without shutdown: " + t, data))
         cuts, pos = [], 0
         for f in frames[:-1]:
             pos += len(f)
